@@ -10,8 +10,11 @@ Notation text := (list Z).
 Fixpoint text_eqb (a b : text) : bool :=
   match a, b with [], [] => true | x :: a', y :: b' => (x =? y) && text_eqb a' b' | _, _ => false end.
 
-(* str.isspace / what str.strip() and str.split() treat as whitespace, ASCII range *)
-Definition is_ws (c : Z) : bool := ((9 <=? c) && (c <=? 13)) || ((28 <=? c) && (c <=? 32)).
+(* str.isspace / what str.strip() and str.split() treat as whitespace: every code point CPython's _PyUnicode_IsWhitespace accepts
+   (the harness checks this table against str.isspace over the whole code-point range on every run) *)
+Definition is_ws (c : Z) : bool :=
+  ((9 <=? c) && (c <=? 13)) || ((28 <=? c) && (c <=? 32)) || (c =? 133) || (c =? 160) || (c =? 5760) ||
+  ((8192 <=? c) && (c <=? 8202)) || (c =? 8232) || (c =? 8233) || (c =? 8239) || (c =? 8287) || (c =? 12288).
 
 Fixpoint lstrip (s : text) : text := match s with c :: t => if is_ws c then lstrip t else s | [] => [] end.
 Definition rstrip (s : text) : text := rev (lstrip (rev s)).
